@@ -17,13 +17,15 @@ Ties (all on the SAME archives of every generated program, built once by harness
 import json
 import re
 import shutil
+import time
 
 from . import common as C
 from . import progs
 
-THEOREMS = ["select_lfp", "select_sound", "select_complete", "select_order_independent", "select_monotone_alive",
-            "select_closed", "select_roots", "select_subset", "live_is_least_closed"]
+THEOREMS = ["select_lfp", "select_sound", "select_complete", "live_is_least_closed", "select_order_independent", "select_perm",
+            "select_monotone_alive", "select_closed", "select_closed_two", "select_exact", "select_roots", "select_subset"]
 
+NATIVE_FRACTION = 0.4    # share of generated programs that are also built and run natively (about 1 s CPU each)
 ORDERS = ["fwd", "rev", "weave", "rot=7", "rot=61"]
 PICKS = ["lifo", "fifo", "mid", "alt"]
 
@@ -573,6 +575,21 @@ def run_batch(chk, jobs, meta, tier):
     results = [json.loads(l) for l in p.stdout.split("\n") if l.strip()]
     if len(results) != len(jobs):
         raise RuntimeError("gvh_c05 answered %d results for %d jobs" % (len(results), len(jobs)))
+    # a run that hit the time limit (loaded machine) is repeated alone with a generous limit before it is judged
+    slow = [i for i, r in enumerate(results) if any(v.get("class") == "timeout" for v in r["runs"].values())]
+    if slow:
+        chk.count("rerun-after-timeout", len(slow))
+        gopath = C.scratch("gvc05")
+        try:
+            p = C.run_gvh(["run", "-j", "2"], [json.dumps(dict(jobs[i], timeout=180)) for i in slow], name="gvh_c05", timeout=7200,
+                          extra_env={"GOPATH": gopath, "GO111MODULE": "off", "GOFLAGS": ""})
+        finally:
+            shutil.rmtree(gopath, ignore_errors=True)
+        if p.returncode != 0:
+            raise RuntimeError("gvh_c05 failed: " + p.stderr[-3000:])
+        again = [json.loads(l) for l in p.stdout.split("\n") if l.strip()]
+        for i, r in zip(slow, again):
+            results[i] = r
     # Lean side: for every program the model under the real order/discipline, under other orders/disciplines, and the
     # work-list-free fixed point.
     ops, owner = [], []
@@ -661,7 +678,7 @@ def run_batch(chk, jobs, meta, tier):
 
 def run(tier, seed):
     chk = C.Check("C05", tier, seed)
-    nprog = 150 if tier == "quick" else 1500
+    nprog = 100 if tier == "quick" else 1200
     chk.rule = ("programs = random compositions (2-6 features each, seeded) of 18 feature generators that reach code only "
                 "through interfaces (exported/unexported/same-named methods), anonymous interfaces and assertions, method "
                 "values/expressions, embedding, generic functions/types/constraint methods, types nested in functions and "
@@ -691,14 +708,22 @@ def run(tier, seed):
         meta.append(({"main.go": src}, ["corpus:" + name]))
     for i in range(nprog):
         mod = "gvp%dx%d" % (seed, i)
-        files, feats = gen_program(chk.rng, mod, force=FEATURES[i % len(FEATURES)][0] if i < 2 * len(FEATURES) else None)
-        jobs.append({"id": "g%d-%d" % (seed, i), "mod": mod, "files": files, "native": True})
+        files, feats = gen_program(chk.rng, mod, force=FEATURES[i % len(FEATURES)][0] if i < 3 * len(FEATURES) else None)
+        jobs.append({"id": "g%d-%d" % (seed, i), "mod": mod, "files": files, "native": chk.rng.random() < NATIVE_FRACTION})
         meta.append((files, feats))
     failures = 0
-    step = 150
+    step = 30 if tier == "quick" else 120
+    budget = 110 if tier == "quick" else 1080      # seconds for the main program phase (the machine may be loaded)
+    t0 = time.time()
+    done = 0
     for a in range(0, len(jobs), step):
         failures += run_batch(chk, jobs[a:a + step], meta[a:a + step], tier)
-    chk.extra["programs"] = len(jobs)
+        done = min(len(jobs), a + step)
+        if time.time() - t0 > budget and done >= len(CORPUS) + 2 * len(FEATURES):
+            break
+    chk.extra["programs"] = done
+    chk.extra["programs_planned"] = len(jobs)
+    chk.extra["stopped_on_time_budget"] = done < len(jobs)
     if chk.tie_breaks and not failures:
         # an internal tie broke (model, emission or closure no longer describes the code): search harder for an
         # input on which the property itself fails — more programs, each forced to contain the affected features.
@@ -715,13 +740,16 @@ def run(tier, seed):
         for i in range(extra_n):
             mod = "gvs%dx%d" % (seed, i)
             files, feats = gen_program(chk.rng, mod, force=hot[i % len(hot)])
-            jobs2.append({"id": "s%d-%d" % (seed, i), "mod": mod, "files": files, "native": True})
+            jobs2.append({"id": "s%d-%d" % (seed, i), "mod": mod, "files": files, "native": chk.rng.random() < NATIVE_FRACTION})
             meta2.append((files, feats))
+        t1 = time.time()
+        ran = 0
         for a in range(0, len(jobs2), step):
             failures += run_batch(chk, jobs2[a:a + step], meta2[a:a + step], tier)
-            if failures:
+            ran = min(len(jobs2), a + step)
+            if failures or time.time() - t1 > (240 if tier == "quick" else 900):
                 break
-        chk.extra["search_programs"] = len(jobs2)
+        chk.extra["search_programs"] = ran
     return chk.finish()
 
 
